@@ -408,3 +408,188 @@ Definition kv_chk_explain (t : scase * list ostep) : list (string * option N) :=
   [("C01", first_bad_kv chk_row_C01 t); ("C02", first_bad_kv chk_row_C02 t); ("C05", first_bad_kv chk_row_C05 t);
    ("C06", first_bad_kv chk_row_C06 t); ("C07", first_bad_kv chk_row_C07 t); ("C08", first_bad_kv chk_row_C08 t);
    ("C17", first_bad_kv chk_row_C17 t)].
+
+(* ------------------------------------------------------------------------------------------ *)
+(* C09 (sequential part): the backfill is a faithful, CAS-ordered snapshot and agrees with what a
+   live event says of the same state                                                            *)
+
+Definition fevents_eqb (a b : list fevent) : bool := if list_eq_dec fevent_eq_dec a b then true else false.
+Definition obsrow_eqb (a b : obsrow) : bool := if obsrow_eq_dec a b then true else false.
+
+Definition real_xattrs (xs : list (string * string)) : list (string * string) :=
+  filter (fun kv => negb (String.eqb (fst kv) "$document" || String.eqb (fst kv) "$document.revid")) xs.
+
+(* the dump event of a key and the key-value reads of the same key describe the same document *)
+Definition dump_agrees_with_reads (o : obsrow) : bool :=
+  match o_dump o with
+  | None =>
+      match o_get o, o_exp o, o_doc o with
+      | RErr EMissing, RErr EMissing, RErr EMissing => negb (o_exists o)
+      | _, _, _ => false
+      end
+  | Some f =>
+      (match o_get o with
+       | RVal v c => (if fopcode_eq_dec (f_op f) FMutation then true else false) && String.eqb (f_body f) v && (f_cas f =? c) && o_exists o
+       | RErr EMissing => (if fopcode_eq_dec (f_op f) FDeletion then true else false) && String.eqb (f_body f) "" && negb (o_exists o)
+       | _ => false
+       end)
+      && (match o_exp o with RNum e => f_exp f =? e | _ => false end)
+      && (match o_doc o with
+          | RDoc b xs c => xs_eqb (f_xattrs f) (real_xattrs xs) && (f_cas f =? c)
+                           && ostr_eqb b (match o_get o with RVal v _ => Some v | _ => None end)
+          | _ => false
+          end)
+  end.
+
+Fixpoint dump_expected (s : snapshot) (coll : string) (start : N) (keys : list string) : option (list fevent) :=
+  match keys with
+  | [] => Some []
+  | k :: r =>
+      match look (coll, k) (sn_rows s), dump_expected s coll start r with
+      | Some o, Some l => match o_dump o with
+                          | Some f => Some (if start <=? f_cas f then f :: l else l)
+                          | None => None
+                          end
+      | _, _ => None
+      end
+  end.
+
+Fixpoint cas_nondecreasing (l : list fevent) : bool :=
+  match l with
+  | a :: ((b :: _) as r) => (f_cas a <=? f_cas b) && cas_nondecreasing r
+  | _ => true
+  end.
+
+Definition marker_ev (op : fopcode) : fevent := mkFevent op "" "" [] false false 0 0 0 0.
+
+Definition chk_step_C09 : step_chk := fun prev x o ob =>
+  forallb (fun e => dump_agrees_with_reads (snd e)) (sn_rows (os_snap ob))
+  && match o with
+     | SDump coll start =>
+         match os_resp ob with
+         | ROk =>
+             match alookup String.eqb coll (sn_order prev) with
+             | Some keys =>
+                 match dump_expected prev coll start keys with
+                 | Some l => fevents_eqb (os_dump ob) (marker_ev FBegin :: l ++ [marker_ev FEnd]) && cas_nondecreasing l
+                 | None => true        (* a key outside the observed universe *)
+                 end
+             | None => false
+             end
+         | _ => true
+         end
+     | SKv _ _ _ => kv_step chk_row_C08 prev x o ob      (* a live event renders the state exactly as its backfill event does *)
+     | _ => true
+     end.
+
+Definition chk_C09_kv (t : scase * list ostep) : bool :=
+  walk chk_step_C09 (snap0 (fst t)) (sc_steps (fst t)) (snd t).
+
+(* ------------------------------------------------------------------------------------------ *)
+(* C11: a step addressed to one collection leaves every other collection exactly as it was      *)
+
+Definition rows_outside (c : string) (s : snapshot) := filter (fun e : (string * string) * obsrow => negb (String.eqb (fst (fst e)) c)) (sn_rows s).
+Definition rows_inside (c : string) (s : snapshot) := filter (fun e : (string * string) * obsrow => String.eqb (fst (fst e)) c) (sn_rows s).
+Definition order_outside (c : string) (s : snapshot) := filter (fun e : string * list string => negb (String.eqb (fst e) c)) (sn_order s).
+
+Definition rows_eqb (a b : list ((string * string) * obsrow)) : bool :=
+  if list_eq_dec (fun x y : (string * string) * obsrow =>
+       match sspair_eq_dec (fst x) (fst y), obsrow_eq_dec (snd x) (snd y) with
+       | left e1, left e2 => left (match x, y return fst x = fst y -> snd x = snd y -> x = y with (a1, b1), (a2, b2) => fun p q => f_equal2 pair p q end e1 e2)
+       | right n, _ => right (fun e => n (f_equal fst e))
+       | _, right n => right (fun e => n (f_equal snd e))
+       end) a b then true else false.
+Definition order_eqb (a b : list (string * list string)) : bool :=
+  if list_eq_dec (fun x y : string * list string =>
+       match string_dec (fst x) (fst y), list_eq_dec string_dec (snd x) (snd y) with
+       | left e1, left e2 => left (match x, y return fst x = fst y -> snd x = snd y -> x = y with (a1, b1), (a2, b2) => fun p q => f_equal2 pair p q end e1 e2)
+       | right n, _ => right (fun e => n (f_equal fst e))
+       | _, right n => right (fun e => n (f_equal snd e))
+       end) a b then true else false.
+Definition strs_eqb (a b : list string) : bool := if list_eq_dec string_dec a b then true else false.
+
+Definition row_absent (o : obsrow) : bool :=
+  match o_dump o, o_get o with None, RErr EMissing => negb (o_exists o) | _, _ => false end.
+
+Definition chk_step_C11 : step_chk := fun prev x o ob =>
+  let post := os_snap ob in
+  match o with
+  | SKv c key op =>
+      rows_eqb (rows_outside c prev) (rows_outside c post)
+      && order_eqb (order_outside c prev) (order_outside c post)
+      && strs_eqb (sn_colls prev) (sn_colls post)
+      && forallb (fun e => String.eqb (f_key e) key
+                           && match look (c, key) (sn_rows post) with
+                              | Some o' => match o_dump o' with Some f => f_coll e =? f_coll f | None => true end
+                              | None => true
+                              end) (os_live ob)
+  | SDropColl name =>
+      match os_resp ob with
+      | ROk =>
+          rows_eqb (rows_outside name prev) (rows_outside name post)
+          && order_eqb (order_outside name prev) (order_outside name post)
+          && strs_eqb (sn_colls post) (filter (fun n => negb (String.eqb n name)) (sn_colls prev))
+          && match rows_inside name post with [] => true | _ => false end
+      | _ => rows_eqb (sn_rows prev) (sn_rows post) && strs_eqb (sn_colls prev) (sn_colls post)
+      end
+  | SCreateColl name =>
+      match os_resp ob with
+      | ROk =>
+          rows_eqb (rows_outside name prev) (rows_outside name post)
+          && strs_eqb (sn_colls post) (sn_colls prev ++ [name])
+          && forallb (fun e => row_absent (snd e)) (rows_inside name post)     (* (re-)created empty *)
+      | _ => rows_eqb (sn_rows prev) (sn_rows post) && strs_eqb (sn_colls prev) (sn_colls post)
+      end
+  | SPurge =>
+      strs_eqb (sn_colls prev) (sn_colls post)
+      && forallb (fun e => match look (fst e) (sn_rows prev) with
+                           | Some o0 => obsrow_eqb o0 (snd e) || (negb (o_exists o0) && row_absent (snd e))
+                           | None => false
+                           end) (sn_rows post)
+  | SDump _ _ => rows_eqb (sn_rows prev) (sn_rows post) && strs_eqb (sn_colls prev) (sn_colls post)
+  | SExpire => strs_eqb (sn_colls prev) (sn_colls post)
+  end.
+
+Definition chk_C11_kv (t : scase * list ostep) : bool :=
+  walk chk_step_C11 (snap0 (fst t)) (sc_steps (fst t)) (snd t).
+
+(* ------------------------------------------------------------------------------------------ *)
+(* C18: a sub-document write is "read, set/remove the addressed property, write back"           *)
+
+Definition body_obj (v : option docview) : option (option (list (string * json))) :=
+  match v with
+  | Some d => match v_body d with Some b => jparse_obj b | None => Some None end
+  | None => Some None
+  end.
+
+Definition chk_row_C18 : rowchk := fun key coll x op pre resp evs post =>
+  match op with
+  | KWriteSubDoc path cas v | KSubdocInsert path cas v =>
+      let insert := match op with KSubdocInsert _ _ _ => true | _ => false end in
+      if mutated op resp then
+        (* a supplied CAS was current; the stored document is the old one with exactly the
+           addressed property set (or removed) *)
+        ((cas =? 0) || (cas =? view_cas pre))
+        && (if insert then has_body pre else true)
+        && match parse_path path, subdoc_value v, body_obj pre, post with
+           | Some p, Some jv, Some om, Some d1 =>
+               let doc := JObj (match om with Some m => m | None => [] end) in
+               match upsert_path doc p jv with
+               | inl j' => ostr_eqb (v_body d1) (Some (jprint j'))
+                           && (if insert then match eval_path doc p with inr PENotFound => true | _ => false end else true)
+               | inr _ => false
+               end
+           | _, _, _, _ => false
+           end
+      else same_view pre post
+  | KGetSubDocRaw path =>
+      match resp, parse_path path, body_obj pre with
+      | RVal s c, Some p, Some (Some m) =>
+          match eval_path (JObj m) p with inl j => String.eqb s (jprint j) && (c =? view_cas pre) | inr _ => false end
+      | RVal _ _, _, _ => false
+      | _, _, _ => true
+      end
+  | _ => true
+  end.
+
+Definition chk_C18_kv := chk_kv chk_row_C18.
